@@ -51,7 +51,7 @@ func c17DaemonJob(tier string) Job {
 			panic(err)
 		}
 		g := gc.NewFlannelGC(embedKubeClient(), cli, make(chan struct{}), h.g.VerifCleanIPtables)
-		states := []string{"running", "exited", "dead", "notfound", "err500", "refused"}
+		states := []string{"running", "exited", "dead", "notfound", "err500", "refused", "paused", "created"}
 		portForms := []string{"intact", "torn", "empty", "gone", "not-json"}
 		cids := []string{"g1", "g2"}
 		full := func(c string) string { return h.cidPfx + c }
